@@ -11,7 +11,7 @@ claim("C02","exploration","runtime monitor: differential oracle (spec-derived re
  "Every generated wire value is pushed through the real encoder, stream writer, random-access decoder (with forcing, at offset 0 and k) and stream reader (7 read-segmentation classes, incl. io.EOF delivered together with the last bytes) and compared byte-for-byte / bit-for-bit with an independent codec written from the Thrift spec; a small-shape family is enumerated completely. Held on the executions observed, not a proof.",
  "trusts refcodec as the statement of the wire format; explores trees up to depth 8, binaries up to 3 MiB", "DESIGN.md §5 C02")
 claim("C03","exploration","runtime monitor: self-consistency oracle (re-encode = consumed prefix, skip length, decoder agreement) + crash/hang watchdog over hostile byte strings; checkptr build",
- "Millions of hostile byte strings per run (uniform, grammar-aware evil encodings, byte mutations, every truncation offset, nesting to 10^5) are decoded by both decoder kinds in child processes; panics, fatal errors and hangs are caught by process monitoring, canonicity by re-encoding and Skip.",
+ "Millions of hostile byte strings per run (uniform, grammar-aware evil encodings, byte mutations, every truncation offset, nesting to 10^5) are decoded by both decoder kinds in child processes (forced element by element and by wire.EvaluateValue, whose verdicts must agree); panics, fatal errors and hangs are caught by process monitoring, canonicity by re-encoding and Skip.",
  "inputs <= ~1 MiB, nesting <= 10^5; hang = watchdog + reproduction alone", "DESIGN.md §5 C03")
 
 claim("C12","exploration","runtime monitor: differential oracle (reference envelope codec) + API-agreement oracle over generated requests under scripted read segmentation",
@@ -19,12 +19,12 @@ claim("C12","exploration","runtime monitor: differential oracle (reference envel
  "trusts refcodec's envelope grammar; message types 0..127, names 1..65536 bytes", "DESIGN.md §5 C12")
 
 claim("C13","exploration","runtime monitor: allocation (MemStats/MemProfile site attribution) and reader-call accounting around single decode calls in memory-limited child processes",
- "Short messages whose every length/count position is overwritten with 2^16..2^31-1 are pushed through every decoding API; bytes allocated (runtime.MemStats.TotalAlloc delta) and reader calls+seeks are compared with a linear bound, and an excess is attributed to its allocation site by runtime.MemProfile or by the out-of-memory trace under ulimit -v. One open finding (generated container deserializers) is matched by allocation site only.",
- "bounds C0=2 MiB (11 MiB frame reader), k=128 B/byte, calls<=64N+256; generated types limited to plugin/api until the generated-program lab covers C13", "DESIGN.md §5 C13")
+ "Short messages whose every length/count position is overwritten with 2^16..2^31-1, and with counts whose 32-bit byte-size product wraps back onto the bytes present, are pushed through every decoding API; bytes allocated (runtime.MemStats.TotalAlloc delta) and reader calls+seeks are compared with a linear bound, and an excess is attributed to its allocation site by runtime.MemProfile or by the out-of-memory trace under ulimit -v. One open finding (generated container deserializers) is matched by allocation site only.",
+ "bounds C0=2 MiB (11 MiB frame reader), k=128 B/byte, calls<=64N+256; generated code = the plugin/api types compiled into thriftrw (arbitrary generated programs are not run under ulimit while KF-C13-1 is open)", "DESIGN.md §5 C13")
 
 claim("C18","exploration","Go race detector + baseline-equality and exactly-once conservation oracles over many-goroutine stress (GOMAXPROCS grid, random yields, forced GCs, barrier-synchronised fan-out)",
- "The real codec, request APIs, generated plugin/api (de)serialisers, the frame client and the plugin fan-out run under the race detector in rounds of 2..64 goroutines with GOMAXPROCS in {1,2,16}; every operation's result is compared with its run-alone baseline, every echo reply must be the caller's own unique payload, every frame must be seen exactly once, merged plugin output must be the union and every planted conflict must be reported. Evidence records overlapping operation pairs and pool recycling actually observed.",
- "interleavings are those the Go scheduler produced; generated types limited to plugin/api until the generated-program lab covers C18", "DESIGN.md §5 C18")
+ "The real codec, request APIs, generated plugin/api (de)serialisers, the frame client and the plugin fan-out run under the race detector in rounds of 2..64 goroutines with GOMAXPROCS in {1,2,16}; every operation's result is compared with its run-alone baseline, every echo reply must be the caller's own unique payload, every frame must be seen exactly once, merged plugin output must be the union and every planted conflict must be reported (also with 120-260 files per generator); decodes that fail inside nested containers run in the same mix. Evidence records overlapping operation pairs and pool recycling actually observed.",
+ "interleavings are those the Go scheduler produced; generated code = the plugin/api types compiled into thriftrw", "DESIGN.md §5 C18")
 
 claim("C11","exploration","runtime monitor: model-rendered documents with position bookkeeping compared node-by-node with the parser's tree; totality/ast.Walk monitors over mutated byte strings",
  "Documents are drawn from the full grammar in my own IDL model and rendered with randomised layout while recording each node's first-token line/column; the real parser's tree (structure, names, literal values, docstrings, positions via ast.Pos/Info.Pos) must equal the model, ast.Walk must visit exactly the tree in order with true parents, and random/token-mutated byte strings must yield exactly one of (program, non-empty positioned error list) without panicking. Two position defects that cannot be repaired without regenerating the scanner/parser are open findings, matched by signature only.",
@@ -33,11 +33,11 @@ claim("C11","exploration","runtime monitor: model-rendered documents with positi
 claim("C07","exploration","runtime monitor: model-resolver oracle over generated multi-file programs; link orders made an explicit enumerated input through a tagged hook; natural map-order repetition",
  "Valid program sets are generated in my own IDL model (which knows every binding, typedef root and cast constant), compiled by the real compiler under natural map order, under enumerated/forced link orders (all n! per module list when n<=6) and under definition permutations; the canonical dump of the compiled module graph must equal the model's each time, shared definitions must be one object, and planted invalid programs must be rejected under every order. One order-dependent acceptance defect is an open finding kept alive by a probe; its input class is switched off in the main stream.",
  "the model resolver is the statement of Thrift scoping; hook orders are a subset of what Compile can do", "DESIGN.md §5 C07")
-claim("C08","exploration","runtime monitor: process-level crash/hang monitoring of compile+generate over hostile file sets (every cycle kind x length, token mutations, random bytes)",
+claim("C08","exploration","runtime monitor: process-level crash/hang monitoring of compile+generate over hostile file sets (12 reference-cycle kinds x lengths 1..5, wrong-kind references and malformed annotations, token mutations, random bytes)",
  "Each hostile file set is compiled (strict and non-strict) and, if accepted, generated in a child process; a panic is caught and reported with its stack, a fatal stack overflow or hang kills the child and the runner isolates the killing case in a fresh process. Every run must end with a module/output or an error.",
  "termination decided by watchdog + reproduction; nesting depth <= 250", "DESIGN.md §5 C08")
 claim("C09","exploration","runtime monitor: numeric-rule oracle over an enumerated grid (boundary literal x numeric position x strictness)",
- "Every boundary literal is placed at every numeric position (field ids, enum values, integer constants/defaults of every width, enum-by-number, bool/double from integers); the model's range rules say accept or reject, and an accepted program's compiled numbers must equal the literals written.",
+ "Every boundary literal is placed at every numeric position (field ids, enum values, integer constants/defaults of every width, enum-by-number, bool/double from integers); the model's range rules say accept or reject, and an accepted program's compiled numbers must equal the literals written (decimal, hex, signed, and decimal with leading zeros).",
  "the statement's numeric rules are the oracle; id 0 left open", "DESIGN.md §5 C09")
 claim("C10","exploration","runtime monitor: output-equality oracle (sha256 of every generated file and of the canonically relabelled plugin request) across in-process repetitions, forced link orders and separate processes",
  "Each program is generated repeatedly in one process, under forced link orders and again in separate processes; path sets, file contents, success/failure and the plugin request (up to id renumbering) must be identical.",
@@ -48,11 +48,11 @@ claim("C16","fault_enumeration","offline trace checking of scripted fake-plugin 
  "plugins that never terminate are outside the quantifier; reaping is observed through strace on a sample (all single-plugin cases in thorough)", "DESIGN.md §5 C16")
 
 claim("C17","fault_enumeration","file-system snapshot diff (whole sandbox tree: path, mode, size, sha256) around runs of the real binary with scripted fake plugins; strace of write-mode opens; exit status",
- "The real thriftrw binary runs in a sandbox parent/{thrift,out,other} with canaries and a pre-populated out directory. Enumerated: plugin path shapes (absolute, '..' forms, aliases of core and other plugins' paths, directories, NUL, deep), every named failure cause, the k-th of n modules failing, thrift-root layouts; plus random combinations. After each run the snapshots decide confinement, conflict reporting, all-or-nothing and the expected generated paths; strace -f on a sample confirms no write-mode open outside out.",
+ "The real thriftrw binary runs in a sandbox parent/{thrift,out,other} with canaries and a pre-populated out directory. Enumerated: plugin path shapes (absolute, '..' forms, aliases of core and other plugins' paths, directories, NUL, deep), every named failure cause, the k-th of n modules failing (also after > 5 MiB of generated code), thrift-root layouts; plus random combinations. Where the statement is silent (a '..' path that stays inside, an include outside the explicit root) the run may refuse or handle it; confinement and all-or-nothing are checked either way. After each run the snapshots decide confinement, conflict reporting, all-or-nothing and the expected generated paths; strace -f on a sample confirms no write-mode open outside out.",
  "failures that can only arise while writing are only checked for confinement; symlinks inside out are not explored", "DESIGN.md §5 C17")
 
 claim("C20","exploration","runtime monitor: edit-script oracle over scratch git histories, real thriftbreak binary, readable and JSON output, repeated runs",
- "Each case builds a two-commit git repository (git CLI) from a generated multi-file program and a random script of documented breaking and compatible edits; the diagnostics the script implies are known by construction and must equal, as a multiset of (file, kind, names), what the real thriftbreak binary prints in both output modes on three runs each, together with the exit status.",
+ "Each case builds a two-commit git repository (git CLI) from a generated multi-file program and a random script of documented breaking and compatible edits (incl. two findings on one field, renamed and deleted files); the diagnostics the script implies are known by construction and must equal, as a multiset of (file, kind, names), what the real thriftbreak binary prints in both output modes on three runs each, together with the exit status.",
  "edit kinds whose classification the documentation leaves open are not generated", "DESIGN.md §5 C20")
 
 claim("C06","exploration","runtime monitor: the real thriftrw binary and the Go compiler as observers over generated valid (must be accepted, must compile) and hostile-name (accepted => compiles, else error) multi-file programs",
